@@ -197,6 +197,7 @@ def oracle_download(c, f, steps, out, good, lines=None):
     bad = []
     # the master starts a fresh buffer for section n when it calls section n itself: mark those points in the trace
     marks = {}
+    producer = {}             # output line index -> script command that produced it
     if lines is not None:
         pairs, _ = split_trace(lines, out)
         pos = 0
@@ -225,6 +226,8 @@ def oracle_download(c, f, steps, out, good, lines=None):
                             want = 1 if afq == 1 else 0 if (afq & 15) == 2 else None
                             if want is None or told != want:
                                 bad.append(("outcome-mismatch", "master acknowledged the file with AFQ %d, provider was told transferComplete(%d)" % (afq, told)))
+            for k in range(pos, pos + len(grp)):
+                producer[k] = w[0]
             pos += len(grp)
             if grp and grp[-1].startswith("st "):
                 prev_state = grp[-1].split()[1]
@@ -250,6 +253,12 @@ def oracle_download(c, f, steps, out, good, lines=None):
             continue
         b = bytes.fromhex(w[2]) if w[2] != "-" else b""
         d = c.parse(b)
+        if w[1] != "c0":
+            # the master that selected the file is c0: nothing of the transfer belongs on another connection (answers to that
+            # connection's own requests - handleAsdu answers the connection that asked - are not judged here)
+            if d and d["cot"] == 13 and not d["pn"] and d["tid"] in (121, 123, 125) and producer.get(li) not in (None, "rx2"):
+                bad.append(("wrong-connection", "file transfer ASDU type %d of the transfer selected on c0 was sent on %s" % (d["tid"], w[1])))
+            continue
         if not d or "body" not in d:
             continue
         body = d["body"]
